@@ -1655,6 +1655,21 @@ def fnode_method(interp, obj: FormulaV, name, args, kwargs, node):
         if f[0] in ("and", "or", "implies", "iff", "const"):
             return Const(False)
         return PredV(("fnode", "is_not", ("f", f)))
+    if name in ("is_bool_constant", "is_true", "is_false", "constant_value"):
+        # whether a formula *is* one of the two constants, and which: syntactic on a built formula, two uninterpreted
+        # facts about a placeholder (an atom of the harness stands for any formula, the constants included)
+        if f[0] == "const":
+            return Const({"is_bool_constant": True, "is_true": bool(f[1]), "is_false": not f[1], "constant_value": bool(f[1])}[name])
+        if f[0] in ("not", "and", "or", "implies", "iff"):
+            if name == "constant_value":
+                interp.err(node, "constant_value() of a formula that is not a constant")
+            return Const(False)
+        isc, val = ("fnode", "is_bool_constant", ("f", f)), ("fnode", "constant_value", ("f", f))
+        if name == "is_bool_constant":
+            return PredV(isc)
+        if name == "constant_value":
+            return PredV(val)
+        return PredV(("and", (isc, val if name == "is_true" else ("not", val))))
     if name == "arg":
         if f[0] == "not":
             return FormulaV(f[1], obj.backend)
